@@ -1,194 +1,364 @@
-"""C09 — iv_event_raw: posts from threads, signal handlers, children reach the owner."""
-from ..core import (names_of, same_value, AnalysisBroken, Inliner, canon, strip, last_member, must_pass, relpath, norm_cond, walk, forward)
-from ..analyses import (is_call, holding, path_to, describe, exits_of, callback_kind, loops, innermost_loop,
-                        delta_analysis, is_fail, must_pass_from_block, force_edges, prune_infeasible)
-from .c15 import eintr_retried
+"""C09 — iv_event_raw: posts from threads, signal handlers, children reach the owner.
+
+Anchors: the exported functions iv_event_raw_register / _unregister / _post (analysed with their
+static helpers inlined), the function registration installs as input handler of the read
+descriptor (whatever it is called), the members iv_event_raw.event_rfd / event_wfd, and the
+file-scope mode flag the functions branch on.  See h09.py for the analyses.
+"""
+from ..core import AnalysisBroken, relpath, must_pass
+from ..analyses import callback_kind
+from . import h09
+from .h09 import EAGAIN, EINTR
 
 
 def run(ctx):
     ctx.rule('R-C09a', 'drain, then dispatch: every path to the user handler passes through the read of the event descriptor and lies on '
-                       'its success edge; the would-block arm returns without dispatch; other errors are fatal', floor=3)
+                       'its success edge; the would-block arm returns without dispatch; other errors are fatal', floor=5)
     ctx.rule('R-C09b', 'posting cannot block: the write end is made non-blocking on every success path of registration (pipe mode: '
-                       'explicitly; eventfd mode: it is the registered read descriptor); the post\'s only blocking-capable call is write, retried on EINTR', floor=4)
+                       'explicitly; eventfd mode: it is the registered read descriptor); the post\'s only blocking-capable call is write, retried on EINTR', floor=9)
     ctx.rule('R-C09c', 'mode consistency: register, handler, post and unregister discriminate pipe/eventfd by the same flag; the read '
-                       'size is 8 exactly in eventfd mode; unregister closes the write end exactly in pipe mode', floor=5)
+                       'size is 8 exactly in eventfd mode; unregister closes the write end exactly in pipe mode', floor=10)
     ctx.section(drain)
     ctx.section(nonblock)
     ctx.section(modes)
 
 
-def drain(ctx):
+# --------------------------------------------------------------------------
+# roles
+# --------------------------------------------------------------------------
+
+def _roles(ctx):
     prog = ctx.prog
-    f = prog.fn('iv_event_raw_got_event')
-    sites = [e for e in f.events() if callback_kind(e) == ('callback', 'event_raw')]
-    reads = [e for e in f.events() if is_call(e, 'read')]
+    c = prog.__dict__.get('_c09_roles')
+    if c is not None:
+        return c
+    reg = prog.fn('iv_event_raw_register')
+    unreg = prog.fn('iv_event_raw_unregister')
+    post = prog.fn('iv_event_raw_post')
+    R = h09.inl(prog, reg)
+    hs = h09.handler_of(prog, reg, R)
+    if len(hs) != 1:
+        raise AnalysisBroken('raw event: %d functions installed as input handler of the read descriptor by registration' % len(hs))
+    c = {'register': (reg, R), 'unregister': (unreg, h09.inl(prog, unreg)), 'post': (post, h09.inl(prog, post)),
+         'handler': (hs[0], h09.inl(prog, hs[0]))}
+    prog.__dict__['_c09_roles'] = c
+    return c
+
+
+def _the_flag(ctx):
+    """The mode flag: the one file-scope variable the post function discriminates on."""
+    ro = _roles(ctx)
+    fl = h09.flags_read(ro['post'][1])
+    if len(fl) != 1:
+        # fall back to the flag common to all four roles
+        sets = [h09.flags_read(g) for (_, g) in ro.values()]
+        common = set.intersection(*sets) if sets else set()
+        if len(common) != 1:
+            raise AnalysisBroken('raw event: mode flag not identified (post reads %s)' % sorted(fl))
+        fl = common
+    return sorted(fl)[0]
+
+
+def _by_loc(events):
+    out = {}
+    for e in events:
+        out.setdefault(e.get('loc'), []).append(e)
+    return out
+
+
+def _exit_states(G, ev_in):
+    return ev_in.get((G.exit, 0), frozenset())
+
+
+# --------------------------------------------------------------------------
+# R-C09a: the handler
+# --------------------------------------------------------------------------
+
+def drain(ctx):
+    ro = _roles(ctx)
+    h, H = ro['handler']
+    is_src = lambda e: e['ev'] == 'call' and e.get('callee') == 'read'
+    is_sink = lambda e: callback_kind(e) == ('callback', 'event_raw') or h09.is_user_handler_call(H, e)
+    sites = [e for e in H.events() if is_sink(e)]
+    reads = [e for e in H.events() if is_src(e)]
     if not sites or not reads:
-        raise AnalysisBroken('raw event handler: read or dispatch not found')
-    hd = holding(f)
-    for cs in sites:
-        mp = must_pass(f, lambda e: e in reads and last_member(e['args'][0]) == ('iv_fd', 'fd'))
-        ctx.ob('R-C09a', 'handler:read-before-dispatch', bool(mp.get((cs['_b'], cs['_i']))), loc=cs['loc'],
-               detail='the event descriptor is read (drained) on every path to the user handler', fn=f.q)
-        A = hd.get((cs['_b'], cs['_i']), frozenset())
-        rv = None
-        for s in f.events():
-            if s['ev'] == 'store' and strip(s.get('rhs', {})).get('k') == 'call' and strip(s['rhs']).get('callee') == 'read':
-                rv = canon(s['lhs'])
-        ok = rv is not None and any(a[1] == rv and ((a[0] == '>' and a[2] == '0') or (a[0] == '>=' and a[2] == '1')) for a in A)
-        ctx.ob('R-C09a', 'handler:dispatch-on-success-edge', ok, loc=cs['loc'],
-               detail='the handler runs only on the edge %s > 0 (something was drained)' % rv, path=None if ok else path_to(f, cs), fn=f.q)
-    # once something was drained the handler must run before the function returns
-    rvs = {canon(s['lhs']) for s in f.events() if s['ev'] == 'store' and strip(s.get('rhs', {})).get('k') == 'call' and strip(s['rhs']).get('callee') == 'read'}
-    posvars = set()
-    for s__ in f.events():
-        if s__['ev'] == 'store' and strip(s__['lhs']).get('k') == 'var' and 'rhs' in s__:
-            r_ = strip(s__['rhs'])
-            vals = [r_['v']] if r_.get('k') == 'int' else ([strip(r_['a']).get('v'), strip(r_['b']).get('v')] if r_.get('k') == 'cond' else [None])
-            nm = strip(s__['lhs'])['name']
-            if all(isinstance(v, int) and v > 0 for v in vals):
-                posvars.add(nm)
-            else:
-                posvars.discard(nm)
-    def tr(e, s_):
-        if e in sites:
-            return False
-        return s_
-    def edge(blk, si, s_):
-        if blk.term and blk.term.get('cond') is not None and len(blk.succ) == 2:
-            for (op, lc, rc, l, r) in norm_cond(blk.term['cond'], si == 0):
-                if lc in rvs and rc.lstrip('-').isdigit():
-                    n_ = int(rc)
-                    if (op == '>' and n_ >= 0) or (op == '>=' and n_ >= 1) or (op == '==' and n_ > 0):
-                        return True
-                if lc in rvs and rc in posvars and op in ('==', '>=', '>'):
-                    return True
-        return s_
-    _, ev_in = forward(f, False, tr, lambda a, b: a or b, edge=edge)
-    pts = [(pb, pi) for (pb, pi, _) in exits_of(f)] + [(f.exit, 0)]
-    lost = [p for p in pts if ev_in.get(p)]
-    ctx.ob('R-C09a', 'handler:drained-implies-dispatch', not lost, loc=f.loc,
-           detail='no path returns without calling the handler after a read that returned data (a later would-block read must not cancel the dispatch)', fn=f.q)
-    # EAGAIN arm returns; other errors fatal: on the ret <= 0 edge no path reaches the handler (implied) and non-EAGAIN is fatal
-    fat = [e for e in f.events() if is_call(e, 'iv_fatal')]
-    okf = False
-    for e in fat:
-        A = hd.get((e['_b'], e['_i']), frozenset())
-        if any(a[0] == '!=' and '__errno_location' in a[1] and a[2] == '11' for a in A):
-            okf = True
-    ctx.ob('R-C09a', 'handler:errors-other-than-EAGAIN-fatal', okf, loc=f.loc,
-           detail='a read error other than would-block is fatal (a lost descriptor would lose posts silently)', fn=f.q)
+        raise AnalysisBroken('raw event handler %s: read or dispatch not found' % h.name)
+    st_in = h09.track(H, is_src, is_sink)
+    for loc, evs in sorted(_by_loc(reads).items()):
+        ctx.ob('R-C09a', 'handler:reads-the-read-end', all(e.get('args') and h09.is_read_end(H, e['args'][0]) for e in evs), loc=loc,
+               detail='the descriptor read by the handler is event_rfd.fd (the one registration registered)', fn=h.q)
+    for loc, evs in sorted(_by_loc(sites).items()):
+        S = set()
+        for cs in evs:
+            S |= st_in.get((cs['_b'], cs['_i']), frozenset())
+        ctx.ob('R-C09a', 'handler:read-before-dispatch', all(s.n for s in S), loc=loc,
+               detail='the event descriptor is read (drained) on every path to the user handler', fn=h.q)
+        ok = all(s.n and s.sign == frozenset('+') for s in S)
+        bad = sorted({''.join(sorted(s.sign)) for s in S if s.n and s.sign != frozenset('+')})
+        ctx.ob('R-C09a', 'handler:dispatch-on-success-edge', ok, loc=loc,
+               detail='the handler runs only when the latest read returned > 0 (something was drained)'
+                      + ('' if ok else '; reached with possible result signs %s' % bad), fn=h.q)
+    # a result that may be positive must not be dropped (overwritten by another read, or the function returns) without dispatch
+    lost = []
+    for e in reads:
+        for s in st_in.get((e['_b'], e['_i']), frozenset()):
+            if s.n and not s.disp and '+' in s.sign:
+                lost.append('re-read at %s' % relpath(e['loc']))
+    ex = _exit_states(H, st_in)
+    for s in ex:
+        if s.n and not s.disp and '+' in s.sign:
+            lost.append('return after the read at %s' % relpath(s.cur[1]))
+    ctx.ob('R-C09a', 'handler:drained-implies-dispatch', not lost, loc=h.loc,
+           detail='no path drops the result of a read that may have returned data without calling the handler '
+                  '(a later would-block read must not cancel the dispatch)' + ('' if not lost else ': ' + ', '.join(sorted(set(lost)))), fn=h.q)
+    # a failed read ends the function silently only if it failed with EAGAIN
+    quiet = [s for s in ex if s.n and not s.disp and '-' in s.sign and not (s.errno_is(EAGAIN) or s.errno_is(EINTR))]
+    ctx.ob('R-C09a', 'handler:errors-other-than-EAGAIN-fatal', bool(ex) and not quiet, loc=h.loc,
+           detail='the handler returns after a failed read only when errno is EAGAIN (or EINTR: the level-triggered descriptor fires again); '
+                  'any other read error is fatal (a lost descriptor would lose posts silently)', fn=h.q)
+
+
+# --------------------------------------------------------------------------
+# R-C09b: registration makes the write end non-blocking; post only writes, retried on EINTR
+# --------------------------------------------------------------------------
+
+def _label(p, v):
+    if v is None:
+        return None
+    if v[0] == 's':
+        return p.label.get(v[1])
+    return None
+
+
+O_NONBLOCK = 0o4000
+F_SETFL = 4
+F_GETFL = 3
+
+
+def _sets_nonblock(p, c, W):
+    """the call makes descriptor value W non-blocking: iv_fd_set_nonblock(W), fcntl(W, F_SETFL, <value with O_NONBLOCK set>), fcntl(W, F_GETFL) found to have it,
+    or W is an end of a pipe2(..., flags with O_NONBLOCK) call"""
+    a = c['args']
+    if c['callee'] == 'iv_fd_set_nonblock':
+        return bool(a) and a[0] == W
+    if c['callee'] == 'fcntl' and len(a) >= 3 and a[0] == W and p.const_of(a[1]) == F_SETFL:
+        v = p.const_of(a[2])
+        if v is not None:
+            return bool(v & O_NONBLOCK)
+        lb = _label(p, a[2])
+        return bool(lb) and lb[0] == 'or' and bool(lb[1] & O_NONBLOCK)
+    if c['callee'] == 'fcntl' and len(a) >= 2 and a[0] == W and p.const_of(a[1]) == F_GETFL:
+        # the path established that O_NONBLOCK already is set in the flags read back
+        return bool(p.bits.get(c['res'][1], 0) & O_NONBLOCK)
+    if c['callee'] == 'pipe2' and len(a) >= 2:
+        lw = _label(p, W)
+        v = p.const_of(a[1])
+        return bool(lw) and lw[0] == 'pipe' and lw[2] == c['id'] and v is not None and bool(v & O_NONBLOCK)
+    return False
+
+
+def _describe(p):
+    return '; '.join(p.conds[-8:])
 
 
 def nonblock(ctx):
     prog = ctx.prog
-    f = prog.fn('iv_event_raw_register')
-    # eventfd mode: both ends are the same descriptor, and it is registered (registration makes it non-blocking: C18 R-C18d)
-    hd = holding(f)
-    st = [e for e in f.events() if e['ev'] == 'store' and canon(e['lhs']) in ('fd[0]', 'fd[1]')]
-    same = {}
-    for e in st:
-        same.setdefault(e['_b'], {})[canon(e['lhs'])] = canon(e['rhs'])
-    ok = any(v.get('fd[0]') is not None and v.get('fd[0]') == v.get('fd[1]') for v in same.values())
-    ctx.ob('R-C09b', 'register:eventfd-both-ends-same-descriptor', ok, loc=f.loc,
-           detail='in eventfd mode fd[0] and fd[1] are stored the same value in one block', fn=f.q)
-    res = delta_analysis(f, [])
-    okret = [e for (e, d, rc, p) in res.rets if e is not None and not is_fail(rc)]
-    regs = must_pass(f, lambda e: is_call(e, 'iv_fd_register') and canon(e['args'][0]).endswith('->event_rfd'))
-    rfd = [e for e in f.events() if e['ev'] == 'store' and canon(e['lhs']).endswith('->event_rfd.fd')]
-    ctx.ob('R-C09b', 'register:read-end-registered', all(regs.get((e['_b'], e['_i'])) for e in okret) and bool(okret)
-           and bool(rfd) and all(canon(e['rhs']) == 'fd[0]' for e in rfd), loc=f.loc,
-           detail='event_rfd.fd = fd[0] and iv_fd_register(&this->event_rfd) on every success path (registration sets O_NONBLOCK)', fn=f.q)
-    wfd = [e for e in f.events() if e['ev'] == 'store' and last_member(e['lhs']) == ('iv_event_raw', 'event_wfd')]
-    ctx.ob('R-C09b', 'register:write-end-is-fd[1]', bool(wfd) and all(canon(e['rhs']) == 'fd[1]' for e in wfd), loc=wfd[0]['loc'] if wfd else f.loc,
-           detail='event_wfd = fd[1]', fn=f.q)
-    # pipe mode: forced eventfd_in_use == 0 at the final test => set_nonblock(fd[1]) on every success path
-    def keep(blk, si, atoms):
-        for (op, lc, rc, l, r) in atoms:
-            if lc == 'eventfd_in_use' and rc == '0' and blk.id in later_blocks:
-                return op == '=='
-        return None
-    # blocks after the registration of the read end
-    reg_ev = [e for e in f.events() if is_call(e, 'iv_fd_register')]
-    later_blocks = set()
-    if reg_ev:
-        st_ = [reg_ev[0]['_b']]
-        while st_:
-            x = st_.pop()
-            if x in later_blocks or x is None:
+    ro = _roles(ctx)
+    reg, R = ro['register']
+    h = ro['handler'][0]
+    flag = _the_flag(ctx)
+    this = reg.params[0]['name'] if reg.params else None
+    if this is None:
+        raise AnalysisBroken('iv_event_raw_register has no parameter')
+    paths = h09.SymExec(R).run()
+    succ = []
+    for p in paths:
+        if p.end and p.end[0] == 'ret' and p.result is not None:
+            c = p.const_of(p.result)
+            if c is None:
+                lo, hi, ne = p.bounds(p.result[1]) if p.result[0] in ('s', 'neg') else (0, 0, ())
+                if lo > 0 or hi < 0 or 0 in ne:
+                    continue
+            elif c != 0:
                 continue
-            later_blocks.add(x)
-            st_.extend(f.blocks[x].succ)
-    g = force_edges(f, keep)
-    mp = must_pass(g, lambda e: is_call(e, 'iv_fd_set_nonblock') and canon(e['args'][0]) == 'fd[1]')
-    pts = [(e['_b'], e['_i']) for e in okret]
-    reach = [p for p in pts if p in mp]
-    ctx.ob('R-C09b', 'register:pipe-write-end-nonblocking', bool(reach) and all(mp[p] for p in reach), loc=f.loc,
-           detail='in pipe mode iv_fd_set_nonblock(fd[1]) on every success path', fn=f.q)
-    p = prog.fn('iv_event_raw_post')
-    calls = [e for e in p.events() if e['ev'] == 'call']
-    names = {e.get('callee') for e in calls}
-    ctx.ob('R-C09b', 'post:only-write', names <= {'write', '__errno_location'}, loc=p.loc,
-           detail='calls made by the post function: %s (safe in signal handlers and forked children)' % sorted(n for n in names if n), fn=p.q)
-    for w in [e for e in calls if e.get('callee') == 'write']:
-        ctx.ob('R-C09b', 'post:write-retried-on-EINTR', eintr_retried(p, w), loc=w['loc'],
-               detail='the write is retried while it fails with EINTR', fn=p.q)
+            succ.append(p)
+    if not succ:
+        raise AnalysisBroken('iv_event_raw_register: no success path found')
 
+    sx = h09.SymExec(R)
+
+    def field_key(p, store, path):
+        tv = store.get(this)
+        return '%s->%s' % (sx.vrepr(tv), path) if tv is not None else None
+
+    def field(p, store, path):
+        # value of <this>-><path> in a store snapshot
+        key = field_key(p, store, path)
+        return store.get(key) if key else None
+
+    res = {'reg': [], 'same': [], 'pipe1': [], 'nb': []}
+    n_pipe = n_efd = 0
+    for p in succ:
+        fv = p.store.get(flag)
+        fc = p.const_of(fv) if fv is not None else None
+        may_pipe = may_efd = True
+        if fv is not None:
+            if fc is not None:
+                may_pipe, may_efd = (fc == 0), (fc != 0)
+            elif fv[0] in ('s', 'neg'):
+                lo, hi, ne = p.bounds(fv[1])
+                if lo > 0 or hi < 0 or 0 in ne:
+                    may_pipe = False
+        W = field(p, p.store, 'event_wfd')
+        # registration of the read end: iv_fd_register(&this->event_rfd) with .fd a descriptor (result of a call), .handler_in == handler,
+        # and .fd not changed afterwards
+        okreg = False
+        Rv = None
+        for c in p.calls:
+            if c['callee'] == 'iv_fd_register' and c['args'] and c['args'][0][0] == 'addr' and c['args'][0][1] == field_key(p, p.store, 'event_rfd'):
+                k = c['args'][0][1]
+                fdv = c['store'].get(k + '.fd')
+                hv = c['store'].get(k + '.handler_in')
+                later = p.store.get(k + '.fd')
+                Rv = fdv
+                if fdv is not None and hv == ('fn', h.name) and _label(p, fdv) and _label(p, fdv)[0] in ('pipe', 'call') \
+                        and (later is None or later == fdv):
+                    okreg = True
+        if not okreg:
+            res['reg'].append(p)
+        if may_efd:
+            n_efd += 1
+            lw = _label(p, W)
+            if not (W is not None and W == Rv and lw and lw[0] == 'call'):
+                res['same'].append(p)
+        if may_pipe:
+            n_pipe += 1
+            lw, lr = _label(p, W), _label(p, Rv)
+            if not (lw and lr and lw[0] == 'pipe' and lr[0] == 'pipe' and lw[1] == 1 and lr[1] == 0 and lw[2] == lr[2]):
+                res['pipe1'].append(p)
+            if W is None or not any(_sets_nonblock(p, c, W) for c in p.calls):
+                res['nb'].append(p)
+
+    def first(ps):
+        return ('' if not ps else ' -- violated on the path: ' + _describe(ps[0]))
+    ctx.ob('R-C09b', 'register:eventfd-both-ends-same-descriptor', n_efd > 0 and not res['same'], loc=reg.loc,
+           detail='on every success path that ends in eventfd mode event_wfd holds the very descriptor stored in event_rfd.fd, '
+                  'and that descriptor is the result of a call' + first(res['same']), fn=reg.q)
+    ctx.ob('R-C09b', 'register:read-end-registered', not res['reg'], loc=reg.loc,
+           detail='on every success path iv_fd_register(&event_rfd) ran with event_rfd.fd = the read descriptor and handler_in = %s '
+                  '(registration sets O_NONBLOCK)' % h.name + first(res['reg']), fn=reg.q)
+    ctx.ob('R-C09b', 'register:write-end-is-fd[1]', n_pipe > 0 and not res['pipe1'], loc=reg.loc,
+           detail='on every success path that ends in pipe mode event_wfd is element 1 and event_rfd.fd element 0 of the array filled by one pipe() call'
+                  + first(res['pipe1']), fn=reg.q)
+    ctx.ob('R-C09b', 'register:pipe-write-end-nonblocking', n_pipe > 0 and not res['nb'], loc=reg.loc,
+           detail='on every success path that ends in pipe mode iv_fd_set_nonblock() was applied to the descriptor stored in event_wfd'
+                  + first(res['nb']), fn=reg.q)
+
+    # ---- post --------------------------------------------------------------
+    po, P = ro['post']
+    calls = [e for e in P.events() if e['ev'] == 'call']
+    names = {e.get('callee') for e in calls}
+    ctx.ob('R-C09b', 'post:only-write', names <= {'write', '__errno_location'}, loc=po.loc,
+           detail='calls made by the post function: %s (safe in signal handlers and forked children)' % sorted(str(n) for n in names), fn=po.q)
+    writes = [e for e in calls if e.get('callee') == 'write']
+    if not writes:
+        raise AnalysisBroken('iv_event_raw_post: no write found')
+    is_src = lambda e: e['ev'] == 'call' and e.get('callee') == 'write'
+    st_in = h09.track(P, is_src)
+    ex = _exit_states(P, st_in)
+    ctx.ob('R-C09b', 'post:writes-on-every-path', bool(ex) and all(s.n for s in ex), loc=po.loc,
+           detail='every path through the post function performs a write', fn=po.q)
+    for loc, evs in sorted(_by_loc(writes).items()):
+        ctx.ob('R-C09b', 'post:writes-to-write-end', all(e.get('args') and h09.is_write_end(P, e['args'][0]) for e in evs), loc=loc,
+               detail='the descriptor written is event_wfd', fn=po.q)
+        bad = [s for s in ex if s.n and s.cur == ('write', loc) and '-' in s.sign and s.errno_may_be(EINTR)]
+        ctx.ob('R-C09b', 'post:write-retried-on-EINTR', bool(ex) and not bad, loc=loc,
+               detail='the post function does not return while this write may have failed with EINTR (it is retried)', fn=po.q)
+    # ... and only then: a write that succeeded or failed otherwise (EAGAIN: pipe full, i.e. a post is pending anyway) is not repeated
+    again = []
+    for e in writes:
+        for s in st_in.get((e['_b'], e['_i']), frozenset()):
+            if s.n and not (s.sign == frozenset('-') and s.errno_is(EINTR)):
+                again.append(relpath(e['loc']))
+    ctx.ob('R-C09b', 'post:retry-only-on-EINTR', not again, loc=po.loc,
+           detail='a write is executed after an earlier one only when that one failed with EINTR (retrying on a full pipe would block the poster)'
+                  + ('' if not again else ': ' + ', '.join(sorted(set(again)))), fn=po.q)
+
+
+# --------------------------------------------------------------------------
+# R-C09c: mode consistency
+# --------------------------------------------------------------------------
 
 def modes(ctx):
     prog = ctx.prog
-    users = {}
-    for f in prog.all_funcs():
-        if not f.file.endswith('iv_event_raw_posix.c'):
-            continue
-        for b, blk in f.blocks.items():
-            c = blk.term.get('cond') if blk.term else None
-            if c is None:
-                continue
-            for x in walk(c):
-                if x.get('k') == 'var' and x.get('vk') in ('global', 'staticlocal'):
-                    users.setdefault(f.name, set()).add(x['name'])
-        for e in f.events():
-            for key in ('rhs', 'init'):
-                if key in e:
-                    for x in walk(e[key]):
-                        if x.get('k') == 'cond':
-                            for y in walk(x['c']):
-                                if y.get('k') == 'var' and y.get('vk') in ('global', 'staticlocal'):
-                                    users.setdefault(f.name, set()).add(y['name'])
-    need = ('iv_event_raw_got_event', 'iv_event_raw_register', 'iv_event_raw_unregister', 'iv_event_raw_post')
-    for n in need:
-        ctx.ob('R-C09c', '%s:mode-flag' % n, users.get(n) == {'eventfd_in_use'}, loc=prog.fn(n).loc,
-               detail='mode discriminators read: %s' % sorted(users.get(n, [])), fn=n)
-    # read size
-    h = prog.fn('iv_event_raw_got_event')
-    from .. import interp
-    szs = [e for e in h.events() if e['ev'] == 'store' and canon(e['lhs']) == 'toread']
-    if not szs:
-        raise AnalysisBroken('handler: read size computation not found')
-    v1 = interp.evaluate(szs[0]['rhs'], interp.Assignment(bools={'eventfd_in_use': True}), {})
-    v0 = interp.evaluate(szs[0]['rhs'], interp.Assignment(bools={'eventfd_in_use': False}), {})
-    ctx.ob('R-C09c', 'handler:read-size', v1 == 8 and v0 >= 8, loc=szs[0]['loc'],
-           detail='eventfd mode reads %s bytes (must be exactly 8), pipe mode drains up to %s' % (v1, v0), fn=h.q)
-    # unregister closes the write end iff pipe mode
-    u = prog.fn('iv_event_raw_unregister')
-    hd = holding(u)
-    cl = [e for e in u.events() if is_call(e, 'close') and last_member(e['args'][0]) == ('iv_event_raw', 'event_wfd')]
-    okc = bool(cl)
-    for e in cl:
-        A = hd.get((e['_b'], e['_i']), frozenset())
-        okc = okc and any(a[0] == '==' and a[1] == 'eventfd_in_use' and a[2] == '0' for a in A)
-    # ... and on the pipe edge it is always reached
-    okp = False
-    for b, blk in u.blocks.items():
-        if blk.term and blk.term.get('cond') is not None and len(blk.succ) == 2:
-            for si in (0, 1):
-                for (op, lc, rc, l, r) in norm_cond(blk.term['cond'], si == 0):
-                    if lc == 'eventfd_in_use' and op == '==' and rc == '0':
-                        mp = must_pass_from_block(u, blk.succ[si], lambda e: e in cl)
-                        okp = bool(mp.get((u.exit, 0)))
-    ctx.ob('R-C09c', 'unregister:write-end-closed-iff-pipe', okc and okp, loc=u.loc,
-           detail='close(event_wfd) exactly on the !eventfd_in_use edge (eventfd: same descriptor, closed once)', fn=u.q)
-    rc = must_pass(u, lambda e: is_call(e, 'close') and canon(e['args'][0]).endswith('->event_rfd.fd'))
-    un = must_pass(u, lambda e: is_call(e, 'iv_fd_unregister'))
-    ctx.ob('R-C09c', 'unregister:read-end-unregistered-and-closed', bool(rc.get((u.exit, 0))) and bool(un.get((u.exit, 0))), loc=u.loc,
-           detail='iv_fd_unregister(&event_rfd) and close(event_rfd.fd) on every path', fn=u.q)
+    ro = _roles(ctx)
+    flag = _the_flag(ctx)
+    unit = prog.unit_of(ro['post'][0])
+    for role in ('handler', 'register', 'unregister', 'post'):
+        f, G = ro[role]
+        fl = h09.flags_read(G)
+        inst = 'handler:mode-flag' if role == 'handler' else '%s:mode-flag' % f.name
+        wr = role != 'register' and h09.flag_written(G, flag)
+        ctx.ob('R-C09c', inst, fl == {flag} and not wr, loc=f.loc,
+               detail='mode discriminators read: %s (the post function reads %s)%s' % (sorted(fl), flag, '; writes the flag' if wr else ''), fn=f.q)
+    dom = h09.flag_domain(prog, unit, flag)
+
+    # ---- sizes of the read (handler) and of the write (post) per mode
+    def sizes(role, callee, inst, pipe_min):
+        f, G = ro[role]
+        if h09.flag_written(G, flag):
+            raise AnalysisBroken('%s writes the mode flag' % f.name)
+        evs = [e for e in G.events() if e['ev'] == 'call' and e.get('callee') == callee and len(e.get('args', [])) >= 3]
+        if not evs:
+            raise AnalysisBroken('%s: %s not found' % (f.name, callee))
+        seen = {}
+        for v in dom:
+            g, asg = h09.specialise(G, flag, v)
+            envs = h09.const_envs(g, asg)
+            live = {id(e) for e in h09.reachable_events(g)}
+            for e in evs:
+                if id(e) not in live:
+                    continue
+                n = h09.value_at(envs, asg, e, e['args'][2])
+                seen.setdefault(e['loc'], []).append((v, n))
+        if not seen:
+            raise AnalysisBroken('%s: no %s reachable under any mode' % (f.name, callee))
+        reached = {v for l in seen.values() for (v, n) in l}
+        for loc, l in sorted(seen.items()):
+            ok = all(n is not None and (n == 8 if v != 0 else n >= pipe_min) for (v, n) in l)
+            ctx.ob('R-C09c', inst, ok, loc=loc,
+                   detail='%s size per value of %s: %s (must be exactly 8 when the flag is non-zero: eventfd; at least %d in pipe mode)'
+                          % (callee, flag, ', '.join('%s -> %s' % (v, n) for (v, n) in l), pipe_min), fn=f.q)
+        ctx.ob('R-C09c', inst + ':every-mode', reached == set(dom), loc=f.loc,
+               detail='a %s of the event descriptor is reachable for every value of %s (%s)' % (callee, flag, sorted(reached)), fn=f.q)
+    sizes('handler', 'read', 'handler:read-size', 8)
+    sizes('post', 'write', 'post:write-size', 1)
+
+    # ---- unregister
+    u, U = ro['unregister']
+    if h09.flag_written(U, flag):
+        raise AnalysisBroken('%s writes the mode flag' % u.name)
+    clw = [e for e in U.events() if e['ev'] == 'call' and e.get('callee') == 'close' and e.get('args') and h09.is_write_end(U, e['args'][0])]
+    clr = [e for e in U.events() if e['ev'] == 'call' and e.get('callee') == 'close' and e.get('args') and h09.is_read_end(U, e['args'][0])]
+    unr = [e for e in U.events() if e['ev'] == 'call' and e.get('callee') == 'iv_fd_unregister' and e.get('args') and h09.is_read_end_object(U, e['args'][0])]
+    okw, okr = True, True
+    why = []
+    for v in dom:
+        g, asg = h09.specialise(U, flag, v)
+        live = {id(e) for e in h09.reachable_events(g)}
+        mpw = must_pass(g, lambda e: any(e is x for x in clw)).get((g.exit, 0))
+        if v == 0 and not mpw:
+            okw = False
+            why.append('%s == 0: a path returns without close(event_wfd)' % flag)
+        if v != 0 and any(id(e) in live for e in clw):
+            okw = False
+            why.append('%s == %s: close(event_wfd) reachable' % (flag, v))
+        mpr = must_pass(g, lambda e: any(e is x for x in clr)).get((g.exit, 0))
+        mpu = must_pass(g, lambda e: any(e is x for x in unr)).get((g.exit, 0))
+        if not (mpr and mpu):
+            okr = False
+    ctx.ob('R-C09c', 'unregister:write-end-closed-iff-pipe', okw, loc=u.loc,
+           detail='close(event_wfd) on every path exactly when the flag is 0 (eventfd: same descriptor, closed once)'
+                  + ('' if okw else ': ' + '; '.join(why)), fn=u.q)
+    ctx.ob('R-C09c', 'unregister:read-end-unregistered-and-closed', okr, loc=u.loc,
+           detail='iv_fd_unregister(&event_rfd) and close(event_rfd.fd) on every path in every mode', fn=u.q)
